@@ -39,6 +39,9 @@ Definition bind {A B} (r : result A) (f : A -> result B) : result B :=
   match r with Ok a => f a | Err e => Err e end.
 Notation "'do' x <- r ; k" := (bind r (fun x => k)) (at level 200, x ident, r at level 100, k at level 200).
 
+Notation "'do' ( x , y ) <- r ; k" := (bind r (fun p => let '(x, y) := p in k))
+  (at level 200, x ident, y ident, r at level 100, k at level 200).
+
 Definition is_ok {A} (r : result A) : bool := match r with Ok _ => true | Err _ => false end.
 
 (* osmomath assertMaxBitLen: panic("Int overflow") iff BitLen > 1144 *)
@@ -64,3 +67,17 @@ Definition dc_sub (a b : Z) : result Z := d_check (a - b).
 Definition dc_mul (a b : Z) : result Z := d_check (d_mul a b).
 Definition dc_quo (a b : Z) : result Z := if b =? 0 then Err EDivZero else d_check (d_quo a b).
 Definition dc_mul_int (a i : Z) : result Z := d_check (a * i).
+
+(* LegacyDec.PowerMut with the range assertion of every MulMut (Base.DecModel.d_power is the unchecked value) *)
+Fixpoint dc_power_loop (fuel : nat) (d tmp i : Z) : result (Z * Z) :=
+  if 1 <? i then
+    match fuel with
+    | O => Err EFuel
+    | S f => do tmp' <- (if Z.odd i then dc_mul tmp d else Ok tmp);
+             do d' <- dc_mul d d;
+             dc_power_loop f d' tmp' (Z.quot i 2)
+    end
+  else Ok (d, tmp).
+Definition dc_power (d power : Z) : result Z :=      (* power: a uint64, 0 <= power < 2^64, so 64 halvings suffice *)
+  if power =? 0 then Ok P18 else
+  do (d', tmp) <- dc_power_loop 64 d P18 power; dc_mul d' tmp.
